@@ -218,6 +218,14 @@ class C08World(WalletWorld):
             if outs != wanto:
                 w.violation('reload_mismatch', dict(sig, field='outputs'),
                             '%s: %s outputs reload as %s, on chain %s' % (wi.name, txid[:16], outs, wanto))
+            ok, raw = self.observe(lambda: t.raw_hex())
+            if not ok or raw != c.raw.hex():
+                # the wallet gives every transaction the (non-)segwit form of its own witness type
+                follows_wallet = c.tx.has_witness() != (wi.wt in ('segwit', 'p2sh-segwit'))
+                w.violation('reload_mismatch', dict(sig, field='raw', cause='transaction_form_follows_wallet_type'
+                                                    if follows_wallet else 'other'),
+                            '%s: %s serialization after reload differs from the chain\'s bytes: %s vs %s' %
+                            (wi.name, txid[:16], raw if ok else repr(raw), c.raw.hex()))
             w.probe('reload_incoming_checked')
 
     def check_wallet(self, wi, fresh):
